@@ -399,6 +399,33 @@ Example C01_heap_from_dict_refused :
   end.
 Proof. vm_compute. repeat split. Qed.
 
+(* ====================================================================================== *)
+(* Tree.load / TypedTree.load as one more way a tree comes into being (Mut/MachineLoad.v: [op_load], the
+   loop of Tree._from_list over the node list of a file, made of add_child(data) and add_child(node) steps;
+   [step_x] / [run_x] = the machine with the additional operation [OLoad]).  Well-formedness is preserved by
+   it for every node list, valid or not, and hence holds after every history that also loads files; the
+   identity frame (no identity is handed out twice, the allocator only moves forward) holds as well. *)
+From NT Require Import MachineLoad MachineLoadProofs.
+
+Theorem C01_load_step : forall w o, WFw w -> WFw (snd (step_x w o)).
+Proof. exact WFw_step_x. Qed.
+Print Assumptions C01_load_step.
+
+Theorem C01_load_history : forall ops, WFw (run_x ops empty_world).
+Proof. intros ops. apply WFw_run_x. exact WFw_empty. Qed.
+Print Assumptions C01_load_history.
+
+Theorem C01_load_identity_frame : forall w o, WFw w -> WFx w (snd (step_x w o)).
+Proof. exact WFx_step_x. Qed.
+Print Assumptions C01_load_identity_frame.
+
+Example C01_load_nonvacuous :
+  let doc := [LData 0 (c01_dd 10) None None; LData 1 (c01_dd 20) None None; LRef 0 2; LData 3 (c01_dd 30) None None] in
+  fst (step_x (run c01_ops empty_world) (OLoad false doc)) = Ok [2] /\
+  wf_world_b (snd (step_x (run c01_ops empty_world) (OLoad false doc))) = true /\
+  length (trees (snd (step_x (run c01_ops empty_world) (OLoad false doc)))) = 3.
+Proof. vm_compute. repeat split. Qed.
+
 (* ==== PART REMOVED: a removed node is inert (model theories/Forest/MiscRemoved.v, correspondence Cases/CaseMiscRemoved.v,
    harness parts_misc.REMOVED).  [slots] are the raw attributes of a node object, [sheap] gives them for every object;
    [clear_slots tag clear s] is what Tree._unregister assigns; [eval h fuel n a] is accessor [a] of node.py evaluated on
